@@ -1461,6 +1461,17 @@ func (t *table) gc(now bigtable.Timestamp, done <-chan struct{}, force bool) {
 	// TODO(scottb): could collect batches of rows that need GC with only a read lock, update with write lock.
 
 	i := 0
+	var emptied []keyType
+	defer func() {
+		// Remove rows left without cells. Rows does not specify what happens if rows are
+		// deleted during iteration, so this happens afterwards (the lock is held again);
+		// a client may have written the row anew while the lock was released.
+		for _, k := range emptied {
+			if r := t.rows.Get(k); r != nil && len(r.Families) == 0 {
+				t.rows.Delete(k)
+			}
+		}
+	}()
 	t.rows.Ascend(func(r *btpb.Row) bool {
 		// The iteration may run on a snapshot taken before the lock was last released;
 		// always collect the row as it is stored now.
@@ -1481,6 +1492,9 @@ func (t *table) gc(now bigtable.Timestamp, done <-chan struct{}, force bool) {
 		if changed {
 			r, _ := scrubRow(r, t.cols())
 			t.rows.ReplaceOrInsert(r)
+			if len(r.Families) == 0 {
+				emptied = append(emptied, r.Key)
+			}
 		}
 		i++
 		if i%100 != 0 {
